@@ -100,6 +100,7 @@ pub(super) async fn call_evolve_propose_in_process(
                     report.files,
                     report.files_posix,
                     report.committed,
+                    report.skipped,
                 );
                 let envelope = crate::output::JsonEnvelope::ok(meta.command, data)
                     .with_command_meta(meta.command_id_string(), meta.command_path_vec());
